@@ -29,8 +29,7 @@ QUICK_FIXTURES = [
     "issue-69b.numbers", "issue-7.numbers", "issue-66-collab.numbers", "test-styles.numbers", "issue-14.numbers",
     "issue-59.numbers", "issue-80.numbers", "issue-96.numbers", "test-8.numbers", "test-extra-borders.numbers",
     "test-1.numbers", "test-4.numbers", "test-issue-75.numbers", "test-titles.numbers", "test-6.numbers",
-    "issue-9.numbers", "issue-77.numbers", "test-3.numbers", "create-formulas.numbers", "test-pivot.numbers",
-    "issue-18.numbers", "test-10.numbers",
+    "issue-77.numbers", "test-3.numbers", "test-pivot.numbers", "test-10.numbers",
 ]
 
 
@@ -263,12 +262,14 @@ def run_history(src, tbl, H, tmp: Path, tag: str, trace: bool):
     doc = open_source(src)
     tracer = Tracer(doc, tbl, H) if trace else None
     nfile = 0
+    last = None
     for ev in H:
         k = ev[0]
         if k in ("save", "cycle"):
             nfile += 1
             p = tmp / f"{tag}_{nfile}.numbers"
             doc.save(p)
+            last = p
             if k == "cycle":
                 doc = Document(p)
             out = None
@@ -285,7 +286,7 @@ def run_history(src, tbl, H, tmp: Path, tag: str, trace: bool):
             out = apply_event(doc, tbl, ev)
         if tracer:
             tracer.event(doc, ev, out)
-    return doc, tracer
+    return doc, tracer, last
 
 
 def observe_full(doc, touched_by_table=None, big=400) -> dict:
@@ -326,27 +327,28 @@ def erase(H):
     return [ev for ev in H if ev[0] not in ("save", "cycle") and not ev[0].startswith("q_")]
 
 
-def oracle_case(case: dict, tmp: Path, tag: str, final_doc=None):
+def oracle_case(case: dict, tmp: Path, tag: str, final_path=None):
     """Implementation-only statement of C16 on one case.  Returns a list of (signature, detail)."""
     from numbers_parser import Document
     src, tbl, H = case["source"], tuple(case["table"]), case["history"]
     touched = {tbl: touched_lines(H)}
     fails = []
     try:
-        ref, _ = run_history(src, tbl, erase(H), tmp, tag + "_ref", trace=False)
+        ref, _, _ = run_history(src, tbl, erase(H), tmp, tag + "_ref", trace=False)
         t_ref = the_table(ref, tbl)
         # which lines carry a border allowance, which were queried before a save (for the signature only)
         o_ref = observe_full(ref, touched)
+        # the same with the history's own queries kept (a stale cache in the open document shows here)
+        o_refq = None
+        if any(ev[0].startswith("q_") for ev in H):
+            refq, _, _ = run_history(src, tbl, [ev for ev in H if ev[0] not in ("save", "cycle")], tmp, tag + "_refq", trace=False)
+            o_refq = observe_full(refq, touched)
     except Exception as e:  # noqa: BLE001
         return [("reference-run-raises", f"{type(e).__name__}: {e}")]
     try:
-        if final_doc is None:
-            doc, _ = run_history(src, tbl, H + [["cycle"]], tmp, tag + "_run", trace=False)
-        else:
-            doc = final_doc
-        p = tmp / f"{tag}_final.numbers"
-        doc.save(p)
-        fresh = Document(p)
+        if final_path is None:
+            _, _, final_path = run_history(src, tbl, H + [["cycle"]], tmp, tag + "_run", trace=False)
+        fresh = Document(final_path)
         o_fin = observe_full(fresh, touched)
     except Exception as e:  # noqa: BLE001
         return [("save-reopen-raises", f"{type(e).__name__}: {e}")]
@@ -356,6 +358,8 @@ def oracle_case(case: dict, tmp: Path, tag: str, final_doc=None):
     all_c = any(ev[0] == "q_w" for ev in H)
     for k in sorted(set(o_ref) | set(o_fin)):
         a, b = o_ref.get(k), o_fin.get(k)
+        if a == b and o_refq is not None:
+            a = o_refq.get(k)
         if a == b:
             continue
         field = k.split(".", 1)[1] if "." in k else k
@@ -503,11 +507,13 @@ def fixture_histories(rng, doc, quick: bool):
     """Histories for a fixture: nothing at all, query everything, and a few edits; per table."""
     out = []
     tables = [(si, ti) for si, s in enumerate(doc.sheets) for ti, _ in enumerate(s.tables)]
-    for tbl in tables[: 2 if quick else 6]:
+    tables = [tb for tb in tables if not doc._model.is_a_pivot_table(the_table(doc, tb)._table_id)]
+    for tbl in tables[: 1 if quick else 6]:
         t = the_table(doc, tbl)
         nr, nc = t.num_rows, t.num_cols
-        out.append((tbl, [["cycle"]] * rng.randrange(1, 4), "unqueried"))
-        out.append((tbl, [["q_h"], ["q_w"], ["q_lab"], ["cycle"], ["q_rh", rng.randrange(nr)], ["cycle"]], "query-all"))
+        out.append((tbl, [["cycle"]] * (1 if quick else rng.randrange(1, 4)), "unqueried"))
+        if not quick or rng.random() < 0.4:
+            out.append((tbl, [["q_h"], ["q_w"], ["q_lab"], ["cycle"], ["q_rh", rng.randrange(nr)], ["cycle"]], "query-all"))
         m = doc._model
         try:
             sc = m.objects[m.objects[t._table_id].stroke_sidecar.identifier]
@@ -541,26 +547,25 @@ def model_requests(tracer: Tracer, fin_rows, fin_cols):
 
 
 def one_case(ctx: Ctx, exe, case: dict, tag: str):
-    """Correspondence (traced run) + oracle on one case."""
+    """Correspondence (traced run) + oracle on one case.  One run of the history on a real document
+    serves both: it ends with a last save/reopen, after which everything is queried once more."""
     src, tbl, H = case["source"], tuple(case["table"]), case["history"]
-    final_doc = None
+    final_path = None
     if exe:
         try:
-            # the traced run ends with a last full observation and a last cycle so that the
-            # persisted sizes can be read back
-            Ht = H + [["q_h"], ["q_w"], ["q_lab"], ["cycle"]]
-            final_doc, tracer = run_history(src, tbl, Ht, ctx.tmp, tag + "_tr", trace=True)
+            Ht = H + [["cycle"], ["q_h"], ["q_w"], ["q_lab"]]
+            final_doc, tracer, final_path = run_history(src, tbl, Ht, ctx.tmp, tag + "_tr", trace=True)
             fr, fc, _, _ = raw_sizes(final_doc, tbl)
             cases, reqs, outs = model_requests(tracer, fr, fc)
             name = json.dumps(case, sort_keys=True)
             ctx.compare("size-histories", [f"{name} :: {c}" for c in cases], reqs, outs, exe, nontrivial=lambda c, o: True)
             lab_req = "\t".join(["lab"] + tracer.lab0 + [";".join(tracer.lab_ops)])
             ctx.compare("label-histories", [name], [lab_req], [";".join(tracer.lab_obs)], exe, nontrivial=lambda c, o: True)
-            final_doc = None   # the oracle below runs the untraced history itself
         except Exception as e:  # noqa: BLE001  the oracle below decides whether this is a violation
             ctx.dist("untraced:" + type(e).__name__)
+            final_path = None
     ctx.count("oracle-history")
-    for sig, detail in oracle_case(case, ctx.tmp, tag):
+    for sig, detail in oracle_case(case, ctx.tmp, tag, final_path):
         ctx.oracle_fail(sig, case, detail)
 
 
@@ -621,12 +626,14 @@ def run(ctx: Ctx) -> int:
         except Exception:  # noqa: BLE001  unreadable fixtures are C17's subject
             ctx.dist("fixture:unreadable")
             continue
+        try:
+            doc.save(ctx.tmp / "probe.numbers")
+            doc = Document(str(common.REPO / "tests" / "data" / f))
+        except Exception as e:  # noqa: BLE001  a fixture that cannot be saved at all is outside C16 (C02)
+            ctx.dist("fixture:unsaveable:" + type(e).__name__)
+            continue
         ctx.dist("fixture:readable")
         for j, (tbl, H, mode) in enumerate(fixture_histories(rng, doc, ctx.quick)):
-            t = the_table(doc, tbl)
-            if doc._model.is_a_pivot_table(t._table_id):
-                ctx.dist("fixture:pivot-skipped")
-                continue
             ctx.dist("fixture:" + mode)
             one_case(ctx, exe, {"source": {"fixture": f}, "table": list(tbl), "history": H}, f"fx{f[:-8]}_{j}")
     return common.finish(ctx, search)
